@@ -18,7 +18,8 @@ Representation choices (DESIGN.md §2 row `SchemaDoc`):
   or `some .bad` when that conversion fails (the constant contains an object literal);
 * `HashMap`s: `vertex_types` is a list in insertion (= document) order, used only through look-up by
   name and through `sorted_by_key(name)` iteration — every hash iteration in `Schema::new` is sorted
-  first, so no iteration-order parameter is needed here; `fields` (keyed by `(type, field)`) is the
+  first; the section "Hash iteration order (C14)" repeats the iterating functions with an explicit
+  iteration-order parameter and `Props/C14Schema.lean` proves it irrelevant; `fields` (keyed by `(type, field)`) is the
   look-up `lookupField` through `vertex_types` (the first loop guarantees both maps hold exactly the
   document's types with their fields, each name once); `directives`/`scalars` are name lists;
 * `BTreeSet<&str>` / `BTreeMap` are strictly sorted lists (`Set.insert` / `Map.insert`); collecting
